@@ -1,17 +1,141 @@
-(** C07 — property theorems (statements in full; proofs are [exact] of lemmas in proof/C07_*.v). *)
+(** C07 — property theorems.  Statements in full; every proof is [exact] of a lemma of proof/C07_*.v.
+
+    Vocabulary (proof/C07_Spec.v, definitions only):
+      gwf g                      simple undirected graph: distinct node ids, edges join two distinct nodes, each unordered pair stored once
+      emb ind nm em H P f        f maps the nodes of the pattern P injectively to nodes of the host H, nm(host attrs, pattern attrs)
+                                 holds on every node, every pattern edge lies on a host edge with em(host edge, pattern edge), and
+                                 (ind = true) every pattern non-edge lies on a host non-edge
+      contained ind nm em H P    exists f, emb ind nm em H P f
+      iso_map nm em G1 G2 f      emb true nm em G1 G2 f and f is onto the nodes of G1 (a bijection preserving adjacency both ways)
+      mapping_valid .. H P m     m : list (pattern node, host node) has exactly the pattern's nodes as keys, once each, and is an emb
+      vf2b_contract / enum_contract   what is assumed of networkx VF2 (decides containment / enumerates only valid embeddings and
+                                 at least one when contained); monitored by the harness on every case against lib/Mono.v
+      cache_inv gs c             every entry (graph index, node_attrs) of the WL cache c holds wl1_hash node_attrs (that graph)
+                                 (proof/C07_History.v; holds for [] and is preserved by every query — C07_no_history)
+    The comparators of the engine: C07_comparators (selected attributes equal, hcount host >= pattern). *)
 From Coq Require Import List NArith Bool.
-From SK Require Import lib.Tok lib.LGraph lib.Mono model.C07_Model proof.C07_Spec proof.C07_History.
+From SK Require Import lib.Tok lib.LGraph lib.Mono model.C07_Model
+  proof.C07_Spec proof.C07_History proof.C07_Filters proof.C07_Main proof.C07_WL proof.C07_Relabel proof.C07_Final.
 Import ListNotations.
 
-(** (6) No answer depends on earlier queries.  The engine is a state machine over the class-level WL-histogram cache
-    (keyed by graph object AND node_attrs).  For EVERY list of graph objects, EVERY list of engines (arbitrary attribute
-    selections / filter flags / limits), EVERY sequence of queries (isomorphic, get_mappings, _pre_check, the boolean
-    subgraph tests, graph_isomorphism) and ANY VF2 behaviour whatsoever, the list of answers of the history started on
-    the empty cache equals, query by query, the answer of a fresh engine on an empty cache. *)
+(** the premises are satisfiable, and the instances the correspondence run evaluates ([run] = [run_from has_mono (monos_g true)])
+    satisfy them: every theorem below applies to what is compared with the implementation *)
+Theorem C07_contracts_hold_for_run : vf2b_contract has_mono /\ enum_contract (monos_g true).
+Proof. exact (conj has_mono_contract monos_g_contract). Qed.
+Print Assumptions C07_contracts_hold_for_run.
+
+(** the engine's node / edge comparators: selected attributes equal (absent = None), hcount (absent = 0) host >= pattern *)
+Theorem C07_comparators : forall e h p,
+  (nm_eng e h p = true <-> (forall k, In k (e_na e) -> get k h = get k p) /\ (hc p <= hc h)%N) /\
+  (em_eng e h p = true <-> (forall k, In k (e_ea e) -> get k h = get k p)).
+Proof. exact comparators. Qed.
+Print Assumptions C07_comparators.
+
+(** (1) isomorphic(g_i, g_j) is true exactly when a bijection nodes(g_j) -> nodes(g_i) exists that preserves adjacency both ways,
+    the selected node and edge attributes, with hcount(g_i node) >= hcount(g_j node) — for every engine configuration
+    (filter on or off), every graph pair and every cache state reachable by earlier queries. *)
+Theorem C07_iso_verdict :
+  forall vf2b, vf2b_contract vf2b ->
+  forall gs e i j c, cache_inv gs c -> gwf (gnth gs i) -> gwf (gnth gs j) ->
+    (fst (isomorphic vf2b e i (gnth gs i) j (gnth gs j) c) = true <->
+     exists f, iso_map (nm_eng e) (em_eng e) (gnth gs i) (gnth gs j) f).
+Proof. exact iso_verdict. Qed.
+Print Assumptions C07_iso_verdict.
+
+(** graph_morphism.graph_isomorphism(use_defaults=True): element (default "*"), charge (default 0), order (default 1) *)
+Theorem C07_giso_verdict :
+  forall vf2b, vf2b_contract vf2b ->
+  forall dstar dzero done g1 g2, gwf g1 -> gwf g2 ->
+    (giso vf2b dstar dzero done g1 g2 = true <->
+     exists f, iso_map (nm_sub [(1%N, dstar); (2%N, dzero)]) (fun h p => N.eqb (getd 4 done h) (getd 4 done p)) g1 g2 f).
+Proof. exact giso_verdict. Qed.
+Print Assumptions C07_giso_verdict.
+
+(** (2a) the verdict is invariant under an injective renaming r of the nodes of either argument
+    (gs' is gs with graph i, resp. j, renamed; caches arbitrary but consistent). *)
+Theorem C07_relabel_invariant :
+  forall vf2b, vf2b_contract vf2b ->
+  forall e r gs gs' i j c c', cache_inv gs c -> cache_inv gs' c' -> gwf (gnth gs i) -> gwf (gnth gs j) ->
+    (gnth gs' i = grelabel r (gnth gs i) /\ inj_on r (node_ids (gnth gs i)) /\ gnth gs' j = gnth gs j) \/
+    (gnth gs' j = grelabel r (gnth gs j) /\ inj_on r (node_ids (gnth gs j)) /\ gnth gs' i = gnth gs i) ->
+    fst (isomorphic vf2b e i (gnth gs' i) j (gnth gs' j) c') = fst (isomorphic vf2b e i (gnth gs i) j (gnth gs j) c).
+Proof. exact relabel_invariant. Qed.
+Print Assumptions C07_relabel_invariant.
+
+(** (2b) symmetric when all hydrogen counts are equal or absent (absent counts as 0) *)
+Theorem C07_symmetric :
+  forall vf2b, vf2b_contract vf2b ->
+  forall e gs i j c c' k, cache_inv gs c -> cache_inv gs c' -> gwf (gnth gs i) -> gwf (gnth gs j) ->
+    hc_all k (gnth gs i) -> hc_all k (gnth gs j) ->
+    fst (isomorphic vf2b e i (gnth gs i) j (gnth gs j) c) = fst (isomorphic vf2b e j (gnth gs j) i (gnth gs i) c').
+Proof. exact symmetric. Qed.
+Print Assumptions C07_symmetric.
+
+(** (3) the boolean subgraph test (SubgraphMatch.subgraph_isomorphism / is_subgraph / graph_morphism.subgraph_isomorphism) is the
+    definition of induced (induced = true) resp. monomorphic (induced = false) containment of child in parent,
+    with use_filter on or off *)
+Theorem C07_subgraph_bool :
+  forall vf2b, vf2b_contract vf2b ->
+  forall use_filter induced names eattr child parent, gwf child -> gwf parent ->
+    (sub_iso vf2b use_filter induced names eattr child parent = true <->
+     contained induced (nm_sub names) (em_sub eattr) parent child).
+Proof. exact subgraph_bool. Qed.
+Print Assumptions C07_subgraph_bool.
+
+(** (4) get_mappings(host, pattern): every returned dict is a valid pattern->host embedding, and at least one is returned whenever
+    the pattern is contained — any sizes, in particular |pattern| < |host| — unless max_mappings = 0 *)
+Theorem C07_embeddings :
+  forall vf2b enum, vf2b_contract vf2b -> enum_contract enum ->
+  forall gs e hi pi c, cache_inv gs c -> gwf (gnth gs hi) -> gwf (gnth gs pi) ->
+    (forall m, In m (fst (get_mappings vf2b enum e hi (gnth gs hi) pi (gnth gs pi) c)) ->
+               mapping_valid true (nm_eng e) (em_eng e) (gnth gs hi) (gnth gs pi) m) /\
+    (contained true (nm_eng e) (em_eng e) (gnth gs hi) (gnth gs pi) -> e_mm e <> Some 0%N ->
+     fst (get_mappings vf2b enum e hi (gnth gs hi) pi (gnth gs pi) c) <> []).
+Proof. exact embeddings. Qed.
+Print Assumptions C07_embeddings.
+
+(** (5a) every pre-filter is a NECESSARY condition for containment: _pre_check (node count, edge count, WL-1 histogram
+    containment on equal orders) and the use_filter checks (counts, node-label and edge-label existence).  No VF2 premise. *)
+Theorem C07_filters_necessary :
+  (forall gs e hi pi c, cache_inv gs c -> gwf (gnth gs hi) -> gwf (gnth gs pi) ->
+     contained true (nm_eng e) (em_eng e) (gnth gs hi) (gnth gs pi) ->
+     fst (pre_check e hi (gnth gs hi) pi (gnth gs pi) c) = true) /\
+  (forall induced names eattr child parent, gwf child -> gwf parent ->
+     contained induced (nm_sub names) (em_sub eattr) parent child -> sub_filter names eattr child parent = true).
+Proof. exact filters_necessary. Qed.
+Print Assumptions C07_filters_necessary.
+
+(** (5b) hence: wl1_filter on/off changes neither the verdict of isomorphic nor the list returned by get_mappings, and use_filter
+    on/off does not change the boolean subgraph test *)
+Theorem C07_filters_transparent :
+  forall vf2b enum, vf2b_contract vf2b -> enum_contract enum ->
+  (forall gs e b i j c c', cache_inv gs c -> cache_inv gs c' -> gwf (gnth gs i) -> gwf (gnth gs j) ->
+     fst (isomorphic vf2b (set_wl e b) i (gnth gs i) j (gnth gs j) c') = fst (isomorphic vf2b e i (gnth gs i) j (gnth gs j) c)) /\
+  (forall gs e b hi pi c c', cache_inv gs c -> cache_inv gs c' -> gwf (gnth gs hi) -> gwf (gnth gs pi) ->
+     fst (get_mappings vf2b enum (set_wl e b) hi (gnth gs hi) pi (gnth gs pi) c') =
+     fst (get_mappings vf2b enum e hi (gnth gs hi) pi (gnth gs pi) c)) /\
+  (forall induced names eattr child parent, gwf child -> gwf parent ->
+     sub_iso vf2b true induced names eattr child parent = sub_iso vf2b false induced names eattr child parent).
+Proof. exact filters_transparent. Qed.
+Print Assumptions C07_filters_transparent.
+
+(** (6) No answer depends on earlier queries.  The engine is a state machine over the class-level WL-histogram cache (keyed by
+    graph object AND node_attrs).  For EVERY list of graph objects, EVERY list of engines (arbitrary attribute selections, filter
+    flags, limits), EVERY sequence of queries (isomorphic, get_mappings, _pre_check, the boolean subgraph tests,
+    graph_isomorphism) and ANY behaviour of VF2 whatsoever, each answer of the history equals the answer a fresh engine gives on
+    an empty cache. *)
 Theorem C07_no_history :
   forall (vf2b : bool -> (attrs -> attrs -> bool) -> (attrs -> attrs -> bool) -> graph -> graph -> bool)
          (enum : (attrs -> attrs -> bool) -> (attrs -> attrs -> bool) -> graph -> graph -> list mapping)
          (gs : list graph) (es : list engine) (qs : list query),
     run_from vf2b enum gs es qs [] = map (fun q => fst (step vf2b enum gs es q [])) qs.
-Proof. exact (fun vf2b enum gs es qs => no_history vf2b enum gs es qs [] (cache_inv_nil gs)). Qed.
+Proof. exact no_history_fresh. Qed.
 Print Assumptions C07_no_history.
+
+(** the same from any consistent cache state, and consistency is preserved by every query *)
+Theorem C07_no_history_any_state :
+  forall vf2b enum gs es qs c, cache_inv gs c ->
+    run_from vf2b enum gs es qs c = map (fun q => fst (step vf2b enum gs es q [])) qs /\
+    (forall q, cache_inv gs (snd (step vf2b enum gs es q c))).
+Proof. exact no_history_any. Qed.
+Print Assumptions C07_no_history_any_state.
